@@ -10,15 +10,22 @@ def _reg(p):
     PROPS[p.pid] = p
 
 
-_reg(SchedProp('C01', ['Ea.inv_reachable', 'Ea.step_inv', 'Ea.C01.queue_invariant', 'Ea.C01.never_early']))
+_reg(SchedProp('C01', ['Ea.inv_reachable', 'Ea.step_inv', 'Ea.C01.queue_invariant', 'Ea.C01.never_early',
+                       'Ea.step_good', 'Ea.runSpec', 'Ea.wakeSpec', 'Ea.C01.good_reachable', 'Ea.C01.timer_armed_for_head',
+                       'Ea.C01.nothing_due_after_wakeup', 'Ea.C01.due_jobs_executed_in_wakeup',
+                       'Ea.C01.due_jobs_executed_at_their_time']))
 _reg(SchedProp('C02', ['Ea.C02.only_running_queued_once', 'Ea.C02.not_running_not_queued', 'Ea.C02.duplicate_id_inert',
-                       'Ea.C02.bad_argument_inert', 'Ea.C02.failed_creation_not_queued']))
+                       'Ea.C02.bad_argument_inert', 'Ea.C02.failed_creation_not_queued',
+                       'Ea.step_quiet_notQueued', 'Ea.step_quiet_disabled', 'Ea.control_keep',
+                       'Ea.C02.not_running_never_executed', 'Ea.C02.not_running_never_executed_history',
+                       'Ea.C02.disabled_executes_nothing', 'Ea.C02.control_leaves_other_jobs']))
 _reg(SchedProp('C07', ['Ea.C07.status_next_run', 'Ea.C07.finished_terminal', 'Ea.C07.callbacks_once',
                        'Ea.C07.set_next_run_callbacks']))
 _reg(SchedProp('C08', ['Ea.C08.reset_announces', 'Ea.C08.reset_accepted', 'Ea.C08.countdown_fire_pauses',
                        'Ea.C08.once_finishes', 'Ea.C08.queued_once']))
 _reg(SchedProp('C09', ['Ea.C09.queue_sorted', 'Ea.C09.paused_never_queued', 'Ea.C09.queue_nodup',
-                       'Ea.C09.insort_keeps_sorted']))
+                       'Ea.C09.insort_keeps_sorted', 'Ea.dSpec', 'Ea.oSpec', 'Ea.sleepLoop_ordered',
+                       'Ea.C09.executions_in_due_order']))
 _reg(SchedProp('C10', ['Ea.C10.callbacks_only_log', 'Ea.C10.wakeup_keeps_invariant', 'Ea.C10.trigger_failure_no_reexec']))
 
 from props_prod import ProdProp  # noqa: E402
